@@ -17,6 +17,9 @@ def project_files():
     f["src/par.f90"] = "module par\n  interface\n" + "".join(f"    module subroutine w{k}()\n    end subroutine w{k}\n" for k in range(4)) + "  end interface\nend module par\n"
     for k in range(4):
         f[f"src/sub{k}.f90"] = f"submodule (par) sm{k}\ncontains\n  module subroutine w{k}()\n  end subroutine w{k}\nend submodule sm{k}\n"
+    # equal base names in different directories, each defining an equally named procedure
+    for d in ("alpha", "beta", "gamma"):
+        f[f"src/{d}/utils.f90"] = f"subroutine init_utils()\n  !! in {d}\nend subroutine init_utils\n"
     f["src/main.f90"] = "program driver\n" + "".join(f"  use mod{i}, only: foo{i} => foo\n" for i in range(4)) + "".join(f"  call foo{i}()\n" for i in range(4)) + "end program driver\n"
     return f
 
